@@ -33,7 +33,7 @@ def gen_cases(tier, seed):
              "cfg": {"out": r.choice(["all", "sinks", "struct", "node"])},
              "perturb": r.choice(["instr", "instr", "none"]) if W > 1 else "none",
              "max_errors": r.choice([0, 0, 1, 2, 5, None]),
-             "faults": {"kinds": r.choice([["exc"], ["exc", "value"], ["base"], ["kbi", "sysexit", "genexit"], ["exc", "base", "kbi", "value"]])}}
+             "faults": {"kinds": r.choice([["exc"], ["exc", "value", "callerr"], ["base"], ["kbi", "sysexit", "genexit"], ["exc", "base", "kbi", "value", "callerr"], ["callerr"]])}}
         if r.random() < 0.4:
             d["faults"]["count"] = r.choice([1, 1, 2, 3, ncalls])
         else:
